@@ -36,7 +36,34 @@ class ModelError(Exception):
     """the fragment itself fails in the model (IndexError, KeyError ...)"""
 
 
-_BIN = {ast.Add: lambda a, b: a + b, ast.Sub: lambda a, b: a - b, ast.Mult: lambda a, b: a * b, ast.FloorDiv: lambda a, b: a // b,
+class Mat:
+    """a small dense complex matrix for fragments that build operators entry by entry (rows as tuples); only what such fragments use"""
+    def __init__(self, rows):
+        self.rows = tuple(tuple(complex(v) for v in r) for r in rows)
+
+    def __matmul__(self, o):
+        return Mat([[sum(self.rows[i][k] * o.rows[k][j] for k in range(len(o.rows))) for j in range(len(o.rows[0]))] for i in range(len(self.rows))])
+
+    def __mul__(self, o):
+        if isinstance(o, Mat):
+            return Mat([[a * b for a, b in zip(r1, r2)] for r1, r2 in zip(self.rows, o.rows)])
+        return Mat([[v * o for v in r] for r in self.rows])
+    __rmul__ = __mul__
+
+    def __add__(self, o):
+        return Mat([[a + b for a, b in zip(r1, r2)] for r1, r2 in zip(self.rows, o.rows)])
+
+    def __sub__(self, o):
+        return Mat([[a - b for a, b in zip(r1, r2)] for r1, r2 in zip(self.rows, o.rows)])
+
+    def __neg__(self):
+        return self * -1
+
+    def close(self, o, tol=1e-9):
+        return len(self.rows) == len(o.rows) and all(abs(a - b) < tol for r1, r2 in zip(self.rows, o.rows) for a, b in zip(r1, r2))
+
+
+_BIN = {ast.MatMult: lambda a, b: a @ b, ast.Add: lambda a, b: a + b, ast.Sub: lambda a, b: a - b, ast.Mult: lambda a, b: a * b, ast.FloorDiv: lambda a, b: a // b,
         ast.Mod: lambda a, b: a % b, ast.BitOr: lambda a, b: a | b, ast.BitAnd: lambda a, b: a & b, ast.BitXor: lambda a, b: a ^ b}
 _CMP = {ast.Eq: lambda a, b: a == b, ast.NotEq: lambda a, b: a != b, ast.Lt: lambda a, b: a < b, ast.LtE: lambda a, b: a <= b,
         ast.Gt: lambda a, b: a > b, ast.GtE: lambda a, b: a >= b, ast.In: lambda a, b: a in b, ast.NotIn: lambda a, b: a not in b,
